@@ -14,10 +14,12 @@ theorem wGood_names : ∃ ds, nsDecls wGood = some ds ∧ (ds.all (fun d => !haz
     ((allNames wGood).all (fun n => !hazardName n)) = true ∧ ds.length > 12 := by
   refine ⟨(nsDecls wGood).getD [], by decide +kernel, by decide +kernel, by decide +kernel, by decide +kernel⟩
 
+/-- the former three-way clash `a/b_c_d`, `a_b/c_d`, `a_b_c/d`: the loop of `make_unique_param_name` appends
+    `_<depth>` until the name is new -/
 theorem wPaths_fact : Accepted wPaths ∧
     ("messages.M", ["a_num_in_group", "a_b_c_d_num_in_group", "a_b_num_in_group", "a_b_c_d_num_in_group_1",
-      "a_b_c_num_in_group", "a_b_c_d_num_in_group_1"]) ∈ paramLists wPaths := by
-  refine ⟨?_, ?_⟩ <;> decide +kernel
+      "a_b_c_num_in_group", "a_b_c_d_num_in_group_1_1"]) ∈ paramLists wPaths ∧ paramProblems wPaths = [] := by
+  refine ⟨?_, ?_, ?_⟩ <;> decide +kernel
 
 /-- the former include defect: the message file now includes the enum of the constant's `valueRef` -/
 theorem wValueRef_fact : Accepted wValueRef ∧ missingIncludes wValueRef wValueRef.messages.head! = [] ∧
